@@ -132,6 +132,8 @@ type FnSpec struct {
 	Lean    string // Lean name of the generated definition
 	Doc     string
 	Binders string            // extra Lean binders, placed first, e.g. "(cb : Cb.Callback)"
+	// Captures: Go locals (loop variables) that Vals / Funcs templates refer to on purpose
+	Captures []string
 	// SkipParams: Go parameters of a type outside the subset that Binders / Vals stand in for
 	SkipParams []string
 	// Results overrides the translator types of the Go results (e.g. "unit" for a pointer to a struct
@@ -242,6 +244,10 @@ func leanTy(ty string) string {
 	}
 	if strings.HasPrefix(ty, "opaque:") {
 		return strings.TrimPrefix(ty, "opaque:")
+	}
+	if strings.HasPrefix(ty, "olist:") {
+		// a slice or a map ranged over in an order the FnSpec supplies; elements are opaque
+		return "List (" + strings.TrimPrefix(ty, "olist:") + ")"
 	}
 	return "unsupported_type"
 }
@@ -1916,6 +1922,9 @@ func (t *bodyTr) rangeStmt(x *ast.RangeStmt, sc bscope, ctx bctx, ind string, re
 	}
 	xs := t.expr(x.X, sc, "")
 	el := map[string]string{"bytes": "byte", "list": "bytes", "list2": "list"}[xs.Ty]
+	if strings.HasPrefix(xs.Ty, "olist:") {
+		el = "opaque:" + strings.TrimPrefix(xs.Ty, "olist:")
+	}
 	if el == "" {
 		return bad("range_operand")
 	}
@@ -2078,6 +2087,9 @@ func GenBody(spec *FnSpec) string {
 		}
 		return true
 	})
+	for _, c := range spec.Captures {
+		delete(t.reserved, c)
+	}
 	sc := bscope{depth: 1} // parameters and named results live in the scope of the function body
 	var binders []string
 	if t.hasFuel {
